@@ -203,9 +203,27 @@ def hist_items(params, items, W, leads):
     return ok, W
 
 
+def may_write(items):
+    out = {}
+    for it in items:
+        if it[0] == "ite":
+            out.update(may_write(it[1]))
+            out.update(may_write(it[2]))
+        elif it[0] == "writeAttr":
+            out.setdefault(it[1], it[3])
+        elif it[0] == "abort":
+            break
+    return out
+
+
 def history_free(params, items):
     leads = []
     ok, W = hist_items(set(params), items, set(), leads)
+    if W is not None:
+        for a, meta in sorted(may_write(items).items()):
+            if a not in W:
+                ok = False
+                leads.append(dict(kind="conditional-write", attr=a, **meta))
     return ok, W, leads
 
 
